@@ -85,7 +85,8 @@ def specs(tier: str):
     thorough = tier == "thorough"
     out = []
 
-    def add(factory, sync=False, **args):
+    def add(factory, sync=False, keep_sync=False, **args):
+        sync = sync and (keep_sync or not thorough)      # thorough: every shared access is a scheduling point (three-body histories excepted)
         out.append({"module": "props.c14", "factory": factory, "args": args, "K": 0, "name": f"{factory}{sorted(args.items())}" + ("@sync" if sync else ""),
                     "timeout": 6000 if thorough else 900, "validate": 4 if thorough else 2, "depth_probes": 300, "sync_granularity": sync})
 
@@ -93,16 +94,14 @@ def specs(tier: str):
     for k in kinds:
         add("sc_sequential", sync=(k == "block" and not thorough), history=(k,))
     add("sc_overlapping", second="return")
-    # two-body histories: context switches at synchronisation operations (quick); every shared access (thorough, selected)
+    # two-body histories: context switches at synchronisation operations (quick); every shared access (thorough)
     pairs = list(itertools.product(kinds, repeat=2)) if thorough else [("raise", "return"), ("kbd", "return")]
     for h in pairs:
         add("sc_sequential", sync=True, history=h)
     if thorough:
         add("sc_overlapping", second="raise")
-        for h in (("raise", "return"), ("sysexit", "return")):
-            add("sc_sequential", sync=False, history=h)
         for h in (("raise", "raise", "return"), ("return", "sysexit", "return"), ("kbd", "block", "return")):
-            add("sc_sequential", sync=True, history=h)
+            add("sc_sequential", sync=True, keep_sync=True, history=h)
     return out
 
 
